@@ -398,7 +398,7 @@ for _n, _d in (('v311_q1', 'v3.1.1 [QoS1 PUBLISH(i), PUBREL(k)]'), ('v311_q2', '
     S('st_restore_pair_' + _n, {}, stubs=_st, est=600, mem='L',
       bounds='restore_packets(%s) into a fresh client, ids symbolic; order, wait sets, in-use ids, re-registration refused' % _d, symbolic='i, k', encodes=['restore_packets', 'register_packet_id'])
 for _n, _d in (('v311_publish_q1', 'v3.1.1 QoS1 PUBLISH'), ('v311_publish_q2', 'v3.1.1 QoS2 PUBLISH'), ('v311_pubrel', 'v3.1.1 PUBREL'), ('v5_pubrel', 'v5.0 PUBREL'), ('v5_publish_q2', 'v5.0 QoS2 PUBLISH')):
-    S('st_restore_one_' + _n, {}, stubs=(_st if 'publish' in _n else []), est=500, mem='L',
+    S('st_restore_one_' + _n, {}, stubs=(_st if 'publish' in _n else []), est=250, mem='M',
       bounds='restore_packets([%s(i)]) into a fresh client, i over all u16 >= 1; store content, in-use id, exactly the right wait set, re-registration refused' % _d, symbolic='i', encodes=['restore_packets', 'register_packet_id'])
 S('st_send_publish_v5_manual_alias_rebind1', {}, stubs=_st, est=900, mem='XL', timeout=3600,
   bounds='v5.0 QoS0 PUBLISH (topic in {a,b}) with Topic Alias 1..=3 sent by a connected client whose table (max 3) holds one earlier binding; sender table compared with a receiver model', symbolic='k1, a1, kx, ax',
@@ -426,7 +426,8 @@ _MEM = {
           'st_timer_fired_v5_client_pingresp', 'st_timer_fired_server_pingreq_recv', 'st_recv_pingresp_client', 'st_recv_connack_while_connected_v311', 'c17_can_receive_table',
           'c14_total_size_kernel', 'st_handled_export_restore'],
     'M': ['st_recv_connect_v5_server', 'st_recv_connect_v311_server', 'st_send_puback_v5_limit', 'st_send_pubrec_v5_handled', 'st_reuse_client_v311_clean_connect',
-          'st_send_publish_v5_automap_limit', 'st_recv_publish_q2_v311', 'st_send_publish_v311_q1_persistent'],
+          'st_send_publish_v5_automap_limit', 'st_recv_publish_q2_v311', 'st_send_publish_v311_q1_persistent',
+          'st_restore_one_v311_publish_q1', 'st_restore_one_v311_publish_q2', 'st_restore_one_v311_pubrel', 'st_restore_one_v5_pubrel', 'st_restore_one_v5_publish_q2', 'st_recv_connect_v5_server'],
     'L': ['st_notify_closed_any', 'st_id_calls_total', 'st_recv_puback_v5_flow', 'st_send_publish_v311_never_dropped', 'st_recv_puback_v311_persistent', 'st_send_publish_v5_flow',
           'st_send_publish_v5_limit', 'st_recv_connect_v5_server_tam'],
     'XL': ['st_dispatch_client_v311', 'st_dispatch_server_v311', 'st_dispatch_client_v5', 'st_dispatch_server_v5', 'st_undetermined_first_packet', 'st_recv_publish_v5_alias',
@@ -466,7 +467,7 @@ QUICK = {
     'C13': ['c13_alias_send_clear', 'c13_alias_recv_hist2', 'st_send_publish_v5_automap_limit', 'st_notify_closed_any'],
     'C14': ['c14_total_size_kernel', 'c09_f1_header_value', 'st_send_puback_v5_limit', 'st_send_publish_v5_automap_limit', 'st_recv_packet_too_large'],
     'C15': ['st_send_pingreq_v5_client', 'st_send_disconnect_v311_client', 'st_timer_fired_server_pingreq_recv', 'st_recv_connect_v311_server', 'st_recv_pingresp_client', 'st_notify_closed_any'],
-    'C16': ['st_handled_export_restore'],
+    'C16': ['st_handled_export_restore', 'st_restore_one_v311_publish_q1', 'st_restore_one_v311_publish_q2', 'st_restore_one_v311_pubrel', 'st_restore_one_v5_pubrel', 'st_restore_one_v5_publish_q2'],
     'C17': ['c17_can_receive_table', 'st_recv_connack_while_connected_v311'],
     'C18': _c18_all,
     'C19': ['st_send_disconnect_v311_client', 'st_send_disconnect_v5_server', 'st_timer_fired_v311_client', 'st_recv_framing_error_v5', 'st_recv_packet_too_large'],
